@@ -89,6 +89,19 @@ func (g *gen) scalarText(sc string, ok bool) string {
 	if !ok {
 		return []string{"abc", "", "1x", "999999999999999999999", "-", "1.5.2", "tru", " 1", "0x", "12a", "é"}[r.Intn(11)]
 	}
+	// numbers at the edges of the number syntax: a leading zero digit, a sign, zero itself
+	if g.chance(0.12) {
+		switch sc {
+		case "i8", "i16", "i32", "i64", "int":
+			return []string{"-0", "0", "-1", "-07", "-09", "+3", "007", "-00", "-9", "-8"}[r.Intn(10)]
+		case "u8", "u16", "u32", "u64", "uint":
+			return []string{"0", "00", "+1", "07", "9"}[r.Intn(5)]
+		case "f32", "f64":
+			return []string{"-0.25", "-0", "-.5", "+1.5", "-9.5", "-0e1"}[r.Intn(6)]
+		case "dur":
+			return []string{"-0s", "-0.5h", "+3s", "-9ms"}[r.Intn(4)]
+		}
+	}
 	switch sc {
 	case "str", "c1", "c2", "c3":
 		return []string{"foo", "bar", "", "a b", "x=y", "k:v", "é", "日本", "-", "\"q\"", "a,b", "v%d"}[r.Intn(11)]
